@@ -123,12 +123,12 @@ claim('C18',
 claim('C19',
       "Range post-conditions with the generator behind _gmp_rand as an assumed contract: gmp_urandomb_ui < 2^bits; gmp_urandomm_ui in [0,n-1] "
       "including the 80-iteration fallback (loop unwound completely) and DIVIDE_BY_ZERO exactly for n == 0; mpn_urandomm: result < modulus "
-      "(highest differing limb smaller, limbs above equal); mpz_urandomb: well formed, non-negative, below 2^nbits for every nbits. randget_lc (thorough tier): the "
+      "(highest differing limb smaller, limbs above equal); mpz_urandomb: well formed, non-negative, below 2^nbits for every nbits; mpz_urandomm: 0 <= result < |n| against the ORIGINAL n also when rop == n (temporary copy freed, no leak), 0 for n == 1, DIVIDE_BY_ZERO for n == 0. randget_lc (thorough tier): the "
       "LC generator meets that assumed generator contract for every m2exp <= 2^30 and every nbits - no bit at or above nbits, no write outside the destination - "
       "over an assumed contract of one lc() step (defect ea6e797 was found here). randseed_lc: after seeding every state limb is the limb of seed mod 2^m2exp or "
       "zero, so nothing of the previous state survives (reproducibility of re-seeded states).",
       TB + "The Mersenne Twister is ASSUMED to fill ceil(nbits/64) limbs with zero bits above nbits (no unit); lc() (one LC step: mpn_mul, add, shift) is assumed; no unit covers "
-      "mpz_urandomm, mpz_rrandomb, mpn_randomb/rrandom, mpf_urandomb, gmp_randinit_set, seeding reproducibility or the statistical clauses. "
+      "mpz_rrandomb, mpn_randomb/rrandom, mpf_urandomb, gmp_randinit_set, seeding reproducibility or the statistical clauses. "
       "Termination of rejection loops is not proved.")
 
 claim('C07',
